@@ -765,8 +765,7 @@ def run_history(case):
 def lookup_variants(rec, spy, inner, runs):
     """C18: find_matching_recording_ids per category (creation ordinals) with lookup-properties objects that reached their
     state in other ways than through the constructor alone: attributes assigned after construction, one object reused for
-    every category and looked up twice, a duck-typed object.  What counts is the object's state at lookup time."""
-    import types
+    every category and looked up twice.  What counts is the object's state at lookup time."""
     from playback.studio.recordings_lookup import find_matching_recording_ids, RecordingLookupProperties
     cats = sorted(set(r["op"]["cls"] for r in runs if r["kind"] == "record"))
     K_EXC = TapeRecorder.EXCEPTION_IN_OPERATION
@@ -799,14 +798,6 @@ def lookup_variants(rec, spy, inner, runs):
     def ctor_filter():
         return RecordingLookupProperties(start_date=None, metadata={K_EXC: False})
 
-    def duck():
-        return types.SimpleNamespace(start_date=None, end_date=None, metadata=None, limit=None, random_sample=False,
-                                     skip_incomplete=True)
-
-    def duck_off():
-        return types.SimpleNamespace(start_date=None, end_date=None, metadata=None, limit=None, random_sample=False,
-                                     skip_incomplete=False)
-
     def ctor_off():
         return RecordingLookupProperties(start_date=None, skip_incomplete=False)
 
@@ -814,8 +805,7 @@ def lookup_variants(rec, spy, inner, runs):
     rec.tape_cassette = inner      # lookups do not go through the spy's journal
     try:
         for name, mk in (("late_on", late_on), ("late_off", late_off), ("meta_none", meta_none), ("meta_empty", meta_empty),
-                         ("meta_filter", meta_filter), ("ctor_filter", ctor_filter), ("duck", duck), ("duck_off", duck_off),
-                         ("ctor_off", ctor_off)):
+                         ("meta_filter", meta_filter), ("ctor_filter", ctor_filter), ("ctor_off", ctor_off)):
             try:
                 per = {c: sorted(spy.ords.get(i, -1) for i in find_matching_recording_ids(rec, c, mk())) for c in cats}
                 shared = mk()          # ONE object for every category (as the studio does), each category looked up twice
@@ -825,6 +815,18 @@ def lookup_variants(rec, spy, inner, runs):
                 out[name] = {"fresh": per, "shared": again}
             except Exception as ex:
                 out[name] = {"error": type(ex).__name__ + ": " + str(ex)[:200]}
+        try:
+            # one object whose skip_incomplete is switched off and on again between lookups
+            p = RecordingLookupProperties(start_date=None)
+            look = lambda: {c: sorted(spy.ords.get(i, -1) for i in find_matching_recording_ids(rec, c, p)) for c in cats}  # noqa: E731
+            tog = {"on1": look()}
+            p.skip_incomplete = False
+            tog["off"] = look()
+            p.skip_incomplete = True
+            tog["on2"] = look()
+            out["toggle"] = tog
+        except Exception as ex:
+            out["toggle"] = {"error": type(ex).__name__ + ": " + str(ex)[:200]}
     finally:
         rec.tape_cassette = spy
     return out
